@@ -168,7 +168,11 @@ func (w *World) Step(st Step) error {
 		}
 		return nil
 	case "devrestart":
+		// a reboot loses the running configuration and breaks the device's connections
 		w.devices[st.T].RestartEmpty()
+		for _, id := range w.pool.byTarget(st.T) {
+			w.ConnDown(id)
+		}
 	case "devfail":
 		w.devices[st.T].FailNext(codes.Code(st.Code), st.Cnt)
 	case "drain":
